@@ -27,7 +27,7 @@ Definition r_kept : bench_entry := {| b_id := 0; b_meta := r_meta r_k r_cg (Some
 Definition r_group : group_entry := {| g_id := 10; g_meta := r_meta r_g r_c (Some (r_opts true)); g_generic := None |}.
 Definition r_ign : bench_entry := {| b_id := 1; b_meta := r_meta r_k r_c (Some (r_opts true)); b_runner := RPlain |}.
 Definition r_cfg (ri : run_ignored) : cfg :=
-  {| c_run_ignored := ri; c_opts := {| o_ignore := None; o_sample_count := None |}; c_filter := fun _ => true |}.
+  {| c_run_ignored := ri; c_opts := {| o_ignore := None; o_sample_count := None |}; c_filter := fun _ => true; c_threads := [] |}.
 
 (** F3a: an ignored group hides a child that sets [ignore = false]: the run
     executes it, the old listing printed nothing, the repaired one lists it. *)
